@@ -20,6 +20,7 @@ RULE = (
     "hold-out functions with fraction from {0,1,.1,.15,.5} U [0,1]. Operators that raise are counted, not flagged. Non-trivial = input has a duplicate "
     "condition and both observed and unobserved plates. distinct = distinct case JSON."
     ' In half the cases the generator handed over is a PCG64 whose stream repeats words at drawn positions (vf.randomctl.StutterGenerator).'
+    ' The fraction is, in a quarter of the cases, an exact number object (Fraction, Decimal, int) with the exact ceiling as reference.'
 )
 ASSUMPTIONS = [
     "ceil(size*fraction) is evaluated in float arithmetic as documented (20*0.15 -> 4)",
@@ -55,6 +56,7 @@ def _case(draw):
         "stutter": draw(randomctl.stutter_patterns()),  # a generator whose consecutive draws sometimes coincide
         "clash_names": draw(st.integers(0, 3)) == 0,
         "fraction": draw(st.one_of(st.sampled_from([0.0, 1.0, 0.1, 0.15, 0.5]), st.floats(min_value=0, max_value=1))),
+        "fraction_exact": draw(st.sampled_from([None, None, None, ["Fraction", 7, 25], ["Fraction", 1, 3], ["Fraction", 1, 5], ["Fraction", 3, 10], ["Decimal", "0.28"], ["Decimal", "0.1"], ["Decimal", "0.2"], ["Decimal", "1e-400"], ["Fraction", 1, 10**30], ["Decimal", "0.6"], ["int", 1], ["int", 0]])),
     }
 
 
@@ -73,7 +75,7 @@ def exhaustive(tier):
                     rows.append({"s": "s%d" % s_, "p": "%02d_p%d_%d" % ((7 * j + 3 * s_) % 11, s_, j), "t": (["t%d" % (k_ % 4), "t%d" % ((k_ + 1 + r_) % 4), "ctl"])[:a], "d": ([1.0, 2.0, 0.0])[:a], "o": round(0.05 + 0.03 * k_, 4)})
         rows.append({"s": "s0", "p": "zz_obs", "t": (["t0", "ctl", "ctl"])[:a], "d": ([1.0, 0.0, 0.0])[:a], "o": 0.9})
         sc = {"arity": a, "control": "ctl", "rows": rows, "observed": ["zz_obs"], "ns": 2, "nt": 8, "ssp": True}
-        yield {"screen": sc, "ops": [{"name": "MergeMin", "min_size": 4}, {"name": "MergeTopBottom", "n_iterations": 2}, {"name": "BatchieEnsemble", "min_size": 3, "n_iterations": 1, "k": 1}], "seed": 5 + a, "fraction": 0.5}
+        yield {"screen": sc, "ops": [{"name": "MergeMin", "min_size": 4}, {"name": "MergeTopBottom", "n_iterations": 2}, {"name": "BatchieEnsemble", "min_size": 3, "n_iterations": 1, "k": 1}], "seed": 5 + a, "fraction": 0.5, "fraction_exact": [None, ["Fraction", 7, 25], ["Decimal", "0.28"]][a % 3]}
 
 
 def _included(small, big):
@@ -154,6 +156,13 @@ def check_case(case):
             screen.get_plate(a_).merge(screen.get_plate(b_))
         snap = retro.snapshot(screen)
         frac = case["fraction"]
+        if case.get("fraction_exact"):
+            # the fraction as an exact number object (a rational, a decimal, an integer 0 / 1): ceil(fraction x size) is then exact
+            import decimal
+            import fractions
+
+            kind_, *args_ = case["fraction_exact"]
+            frac = fractions.Fraction(*args_) if kind_ == "Fraction" else decimal.Decimal(args_[0]) if kind_ == "Decimal" else int(args_[0])
         train, hold = f(screen, frac, randomctl.make_rng(case["seed"], case.get("stutter")))
         require(retro.unchanged(screen, snap), hname + ".input_untouched", "hold-out split modified its input")
         whole = retro.multiset(screen, with_plate=True)
